@@ -1,5 +1,7 @@
 /* C08 — pairing heap: inductive step over a solver-chosen valid heap (index view).
  *  -DM=<elements contained before the operation>; N = M+1 element objects (the extra one is pushed).
+ *  -DWIDE=<k>: shape family — the element whose children are collapsed (the root for pop, x for remove) has at least k children
+ *  (long child lists with odd/even counts at sizes where the fully solver-chosen shape does not reach a verdict).
  *  The (child, sibling, backlink) representation is a binary tree: left = first child, right = next sibling,
  *  parent pointer = backlink.  Inv = that binary tree is well formed, rooted at _root (which has no sibling),
  *  contains exactly the members, heap order holds between every element and its heap parent, outside hooks are null. */
@@ -64,6 +66,9 @@ static void havoc(void) {
 	VP_ASSUME(valid(&V, in, m));
 	write_view(&V);
 }
+#ifdef WIDE
+static int nchildren(const struct view *v, int i) { int n = 0, c = -1; for(int k = 0; k < N; k++) if(i == k) c = v->C[k]; for(int k = 0; k < N; k++) if(c >= 0) { n++; c = v->S[c]; } return n; }
+#endif
 static void observable(const struct view *W, const int *in2, int m2) {
 	VP_ASSERT((int)ph_empty(&heap) == (m2 == 0), "empty() is true exactly when nothing is contained");
 	int t = idx(ph_top(&heap));
@@ -84,6 +89,9 @@ void harness_push(void) {
 void harness_pop(void) {
 	havoc(); VP_ASSUME(m > 0);
 	int t = V.root;
+#ifdef WIDE
+	VP_ASSUME(nchildren(&V, t) >= WIDE);
+#endif
 	VP_ASSERT(idx(ph_top(&heap)) == t, "top() is the root");
 	ph_pop(&heap);
 	struct view W; read_view(&W); int in2[N]; for(int j = 0; j < N; j++) in2[j] = in[j] && j != t;
@@ -92,6 +100,9 @@ void harness_pop(void) {
 }
 void harness_remove(void) {
 	havoc(); int x; VP_INPUT(x); VP_ASSUME(x >= 0 && x < N && in[x]);
+#ifdef WIDE
+	VP_ASSUME(nchildren(&V, x) >= WIDE);
+#endif
 	ph_remove(&heap, EP[x]);
 	struct view W; read_view(&W); int in2[N]; for(int j = 0; j < N; j++) in2[j] = in[j] && j != x;
 	VP_ASSERT(valid(&W, in2, m - 1), "after remove(x): well-formed heap containing exactly the other elements; x's hook is reset");
